@@ -48,7 +48,7 @@ class StepPrims:
             return [(A.W(("next_ip", I._deref_all(path, args[0])), 64), path)]
         if name == "iced_x86::Instruction::mnemonic":
             return [(("mnemonic_of", I._deref_all(path, args[0])), path)]
-        if name.endswith("::try_into") and args and args[0][0] == "mnemonic_of":
+        if name.endswith(("::try_into", "::try_from")) and args and args[0][0] == "mnemonic_of":
             p2 = path.copy()
             ev.append(("mnem", "ok"))
             p2.events.append(("mnem", "err"))
